@@ -6,6 +6,7 @@ import QuaiVerif.Driver.Codec
 import QuaiVerif.Driver.Sign
 import QuaiVerif.Driver.Trie
 import QuaiVerif.Driver.EtxQ
+import QuaiVerif.Driver.Snap
 import QuaiVerif.Driver.Conv
 import QuaiVerif.Driver.Lockup
 import QuaiVerif.Driver.Utxo
@@ -33,6 +34,7 @@ def main (args : List String) : IO UInt32 := do
   | ["sign"] => ioLoop Sign.step stdin stdout {}; return 0
   | ["trie"] => ioLoop Trie.step stdin stdout {}; return 0
   | ["etxq"] => ioLoop EtxQueue.step stdin stdout {}; return 0
+  | ["snap"] => ioLoop Snap.step stdin stdout {}; return 0
   | ["conv"] => ioLoop Convert.step stdin stdout (); return 0
   | ["lockup"] => ioLoop Lockup.step stdin stdout {}; return 0
   | ["utxo"] => ioLoop Utxo.step stdin stdout {}; return 0
